@@ -215,9 +215,11 @@ def suite_fonts(ctx, res, n, n_origin=0):
     cases = list(fontgen.gen_cases(ctx.rng, n, formats=FORMATS0 + ["glyf"], gradients=False, special_colors=False))
     # shapes recurring under a near-identity linear map about the font origin (reuse transform without translation)
     cases += [fontgen.make_origin_anchored_case(ctx.rng.getrandbits(32), fmt=(FORMATS0 + ["glyf"])[i % 4]) for i in range(n_origin)]
+    # every source of alpha (opacity, hex alpha digits, palette variables with either) on solid fills: "colour and alpha taken from the palette"
+    cases += [fontgen.make_var_opacity_case(ctx.rng.getrandbits(32), fmt=FORMATS0[i % 3]) for i in range(max(3, n // 8))]
     for idx, case in enumerate(cases):
         # half of the cases are flat (the image claim), half have groups
-        flat = idx % 2 == 0 or case.get("family") == "origin-anchored"
+        flat = idx % 2 == 0 or case.get("family") in ("origin-anchored", "var-opacity")
         if flat and "family" not in case:
             case = fontgen.make_case(case["seed"], case["fmt"], gradients=False, groups=False, special_colors=False)
         out = fontgen.build(case)
@@ -231,6 +233,8 @@ def suite_fonts(ctx, res, n, n_origin=0):
         fmt = case["fmt"]
         if fmt != "glyf" and flat:
             C01.check_font_renders(ctx, res, case, out, site="colr0-render")
+            if case.get("family") == "var-opacity":
+                fontgen.check_palette_of_font(ctx, res, case, out)
         check_outlines_once(ctx, res, case, out, fmt)
     res.sample({"suite": "fonts", "case_id": case["id"], "config": case["config"], "svg0": case["svgs"][0][:400]})
 
